@@ -47,7 +47,7 @@ RULE = (
     "files of each data set are read back in subdivision order (raw: frame parser; json: Message.from_json per "
     "line; quicklogger: QLReader.load) and compared with the selected messages handed over while recording and not "
     "paused, per recording. Additionally every schedule of small histories is enumerated depth-first (quick: 9 fixed "
-    "histories plus 32 Hypothesis-drawn histories with two flush deadlines, <=1200 schedules each; thorough: also "
+    "histories plus 32 Hypothesis-drawn histories with two flush deadlines, <=600 schedules each; thorough: also "
     "every history of <=4 updates with <=2 flush deadlines, with and without one pause/resume pair, over a "
     "raw+json+quicklogger collection, continuous and subdivided, <=4096 schedules each; counters "
     "dfs-histories-complete / dfs-histories-truncated / dfs-schedules). Non-trivial = a run with >=2 completed "
@@ -734,7 +734,7 @@ def run(ctx: RunContext) -> int:
     n = ctx.scale(400, 8000)
     max_len = 14 if ctx.quick else 24
     max_tape = 48 if ctx.quick else 96
-    limit = 1200 if ctx.quick else 4096
+    limit = 600 if ctx.quick else 4096
     work = [(d, h, limit) for d, h in FIXED_DFS]
     if not ctx.quick:
         for sub in (0, SUBDIV):
